@@ -526,6 +526,16 @@ class SymBytes:
     def decode(self, encoding='utf-8', errors='strict'):
         if self.is_concrete():
             return bytes(self.items).decode(encoding, errors)
+        if errors == 'strict' and encoding.lower().replace('-', '').replace('_', '') in ('utf8', 'ascii'):
+            # exact in two regions: a byte 0xFF is never valid UTF-8 / ASCII (UnicodeDecodeError); all bytes below 0x80 decode to themselves (the text keeps
+            # value tokens for the symbolic ones).  Anything else (multi-byte sequences) is not modelled.
+            sym = [i for i in self.items if not isinstance(i, int)]
+            conc_bad = any(isinstance(i, int) and i == 0xFF for i in self.items)
+            if conc_bad or engine().branch(z3.Or(*[i == 0xFF for i in sym])):
+                raise UnicodeDecodeError(encoding, bytes(i if isinstance(i, int) else 0xFF for i in self.items), 0, 1, 'invalid start byte')
+            if all(i < 0x80 for i in self.items if isinstance(i, int)) and engine().branch(z3.And(*[z3.ULT(i, 0x80) for i in sym])):
+                return ''.join(chr(i) if isinstance(i, int) else token_of(i) for i in self.items)
+            raise Unsupported('strict decode of symbolic bytes that may hold multi-byte sequences')
         if errors == 'strict':
             raise Unsupported('strict decode of symbolic bytes')
         return ''.join(chr(i) if isinstance(i, int) and i < 128 else ('?' if isinstance(i, int) else token_of(i)) for i in self.items)
